@@ -43,7 +43,7 @@ using namespace hk;
 
 namespace {
 constexpr int MAXE = NCYC + TSCHED + 1;    // evaluations of T per run (upper bound; overflow is asserted)
-constexpr int CAP = MAXE + 2;
+constexpr int CAP = 2 * MAXE + 2;           // per-stream capacity (MODE 2: the shared pre-tap sees both keys); overflow is asserted
 struct Rec { DateTime t; Int v; };
 struct Stream {
     Rec r[CAP];
